@@ -164,39 +164,27 @@ Proof.
   intros op a b v H. destruct op; simpl in H; try destruct (b =? 0)%Z; inversion H; reflexivity.
 Qed.
 
+Lemma ref_is_nil_ren : forall v, ref_is_nil (rename_cell v) = ref_is_nil v.
+Proof. destruct v; reflexivity. Qed.
+
+Lemma nil_cmp_ren : forall op st c1 c2,
+  nil_cmp op (get_cell (rename_state st) c1) (get_cell (rename_state st) c2) =
+  nil_cmp op (get_cell st c1) (get_cell st c2).
+Proof.
+  intros. rewrite !get_cell_ren. unfold nil_cmp.
+  destruct (get_cell st c1), (get_cell st c2); simpl; rewrite ?ref_is_nil_ren; reflexivity.
+Qed.
+
 Lemma binop_result_ren : forall op c1 c2 st,
   binop_result op c1 c2 (rename_state st) = ren_res (binop_result op c1 c2 st).
 Proof.
-  intros. unfold binop_result. rewrite !get_int_ren, !get_bool_ren.
-  assert (G : match op with
-   | Eq => match get_bool st c1 with
-       | Some b1 => match get_bool st c2 with
-           | Some b2 => fresh (rename_state st) (CBool (eqb b1 b2))
-           | None => (RStuck, rename_state st) end
-       | None => (RStuck, rename_state st) end
-   | Ne => match get_bool st c1 with
-       | Some b1 => match get_bool st c2 with
-           | Some b2 => fresh (rename_state st) (CBool (negb (eqb b1 b2)))
-           | None => (RStuck, rename_state st) end
-       | None => (RStuck, rename_state st) end
-   | _ => (RStuck, rename_state st) end =
-   ren_res match op with
-   | Eq => match get_bool st c1 with
-       | Some b1 => match get_bool st c2 with
-           | Some b2 => fresh st (CBool (eqb b1 b2))
-           | None => (RStuck, st) end
-       | None => (RStuck, st) end
-   | Ne => match get_bool st c1 with
-       | Some b1 => match get_bool st c2 with
-           | Some b2 => fresh st (CBool (negb (eqb b1 b2)))
-           | None => (RStuck, st) end
-       | None => (RStuck, st) end
-   | _ => (RStuck, st) end).
-  { destruct op; try reflexivity;
-      destruct (get_bool st c1), (get_bool st c2); try reflexivity; apply fresh_ren_bool. }
-  destruct (get_int st c1), (get_int st c2); try exact G.
-  destruct (int_binop op z z0) as [v|] eqn:E; [|reflexivity].
-  rewrite <- (int_binop_not_fun _ _ _ _ E) at 1. apply fresh_ren.
+  intros. unfold binop_result. rewrite !get_int_ren, !get_bool_ren, nil_cmp_ren.
+  destruct (get_int st c1) as [z1|], (get_int st c2) as [z2|].
+  1: { destruct (int_binop op z1 z2) as [v|] eqn:E; [|reflexivity].
+       rewrite <- (int_binop_not_fun _ _ _ _ E) at 1. apply fresh_ren. }
+  all: destruct op; destruct (get_bool st c1), (get_bool st c2);
+       try match goal with |- context[nil_cmp ?o ?a ?b] => destruct (nil_cmp o a b) end;
+       try reflexivity; apply fresh_ren_bool.
 Qed.
 
 Lemma index_result_ren : forall st ca ci,
@@ -232,6 +220,27 @@ Qed.
 Lemma global_env_ren : forall fs i,
   global_env (map rename_fdef fs) i = rename_env (global_env fs i).
 Proof. induction fs; intros; simpl; auto. rewrite IHfs, fd_name_rename. reflexivity. Qed.
+
+(* runs of function items *)
+Lemma run_funcs_ren : forall l, run_funcs (map rename_item l) = map rename_fdef (run_funcs l).
+Proof. induction l as [|[] l IH]; simpl; auto. now rewrite IH. Qed.
+Lemma run_rest_ren : forall l, run_rest (map rename_item l) = map rename_item (run_rest l).
+Proof. induction l as [|[] l IH]; simpl; auto. Qed.
+Lemma func_env_ren : forall fds c e,
+  func_env (map rename_fdef fds) c (rename_env e) = rename_env (func_env fds c e).
+Proof.
+  induction fds as [|fd t IH]; intros c e; simpl; auto.
+  rewrite fd_name_rename. apply (IH (S c) ((fd_name fd, c) :: e)).
+Qed.
+Lemma run_env_ren : forall fds e st,
+  run_env (map rename_fdef fds) (rename_env e) (rename_state st) = rename_env (run_env fds e st).
+Proof. intros. unfold run_env. simpl. rewrite map_length. apply func_env_ren. Qed.
+Lemma run_state_ren : forall fds e st,
+  run_state (map rename_fdef fds) (rename_env e) (rename_state st) = rename_state (run_state fds e st).
+Proof.
+  intros. unfold run_state. rewrite run_env_ren. unfold add_cells, rename_state. simpl.
+  rewrite map_app, !map_map. reflexivity.
+Qed.
 
 (* ---- injective renamings preserve lookup ------------------------------------------- *)
 
@@ -339,10 +348,10 @@ Proof.
       * destruct last; reflexivity.
       * apply (IHi ((x, c) :: e)).
       * apply (IHi ((x, c) :: e)).
-      * rewrite fd_name_rename, alloc_ren_int. destruct (alloc st (CInt 0)) as [c st1]. cbn [fst snd].
-        change (CFun (rename_fdef fd) ((rho (fd_name fd), c) :: rename_env e))
-          with (rename_cell (CFun fd ((fd_name fd, c) :: e))).
-        rewrite set_cell_ren. apply (IHi ((fd_name fd, c) :: e)).
+      * rewrite run_funcs_ren, run_rest_ren, map_length.
+        change (rename_fdef fd :: map rename_fdef (run_funcs t))
+          with (map rename_fdef (fd :: run_funcs t)).
+        rewrite run_env_ren, run_state_ren. cbn [rename_state cells]. rewrite map_length. apply IHi.
     + intros e st ex cs call.
       destruct cs as [|[ex' body] t]; cbn [map rename_catch]; autorewrite with evaleq.
       * destruct call; cbn [option_map]; [apply IHi | reflexivity].
